@@ -243,7 +243,7 @@ def run(ctx):
                     hjobs.append((list(h), mode, "work", "strip"))
                 if 2 <= k <= 3 and mode == "one-call":
                     hjobs.append((list(h), mode, "work", "excl"))
-    ctx.sweep(functools.partial(run_history, RR=R), hjobs, space="run histories within one process", selftest=3)
+    ctx.sweep(functools.partial(run_history, RR=R), hjobs, space="run histories within one process", selftest=3, isolate=False)
     ejobs = []
     for x in names:
         ds = deviations(x)
@@ -252,9 +252,9 @@ def run(ctx):
             for d1, d2 in itertools.combinations(ds, 2):
                 if d1[0] != d2[0]:
                     ejobs.append((x, (d1, d2)))
-    ctx.sweep(functools.partial(run_env, RR=R), ejobs, space="environment deviations", selftest=3)
+    ctx.sweep(functools.partial(run_env, RR=R), ejobs, space="environment deviations", selftest=3, isolate=False)
     seeds = [0, 1, 4242, ctx.seed % (2 ** 32)]
-    ctx.sweep(functools.partial(run_seed, RR=R), seeds, space="hash seeds (subprocess)", selftest=0, chunk=1)
+    ctx.sweep(functools.partial(run_seed, RR=R), seeds, space="hash seeds (subprocess)", selftest=0, chunk=1, isolate=False)
     ctx.cov["states"] = len({tuple(sorted(j[0])) for j in hjobs})     # multisets of inputs already documented
     ctx.cov["bounds"] = {"inputs": INPUTS, "max_history": n, "hash_seeds": seeds, "env_jobs": len(ejobs)}
     ctx.assumptions += ["when two inputs of one run generate the same output path the later one wins (inherent to one "
